@@ -29,5 +29,6 @@ select prepared.ordinality, prepared.id from prepared join inserted using (id) o
 
 	edgePropertySetOnlyStatement      = `update edge set properties = properties || $1::jsonb where edge.id = $2`
 	edgePropertyDeleteOnlyStatement   = `update edge set properties = properties - $1::text[] where edge.id = $2`
-	edgePropertySetAndDeleteStatement = `update edge set properties = properties || $1::jsonb - $2::text[] where edge.id = $3`
+	// `-` binds tighter than `||`: without the parentheses the deleted keys were taken out of the new values only
+	edgePropertySetAndDeleteStatement = `update edge set properties = (properties || $1::jsonb) - $2::text[] where edge.id = $3`
 )
